@@ -301,7 +301,7 @@ func clip(b []byte, n int) string {
 func init() {
 	register(&Check{
 		ID: "C02", Bubble: false, Run: runC02,
-		Runs:   map[string]int{"quick": 1500, "thorough": 60000},
+		Runs:   map[string]int{"quick": 6000, "thorough": 200000},
 		Rule:   "a case is one (value sequence, read partition) pair: every 2-way split and the all-1-byte delivery of each generated stream <= 4 KiB plus 4 seeded k-way partitions biased to structural offsets; distinct = distinct (stream, partition) hashes; non-trivial = stream longer than 4 bytes",
 		Real:   []string{"redis/proto parser (NewParserWithReader, Next)"},
 		Stub:   []string{"transport: scripted io.Reader deciding read sizes and end-of-stream style"},
